@@ -338,6 +338,14 @@ theorem awaitableDone_keep (c : Cfg) (f) : Keep c (awaitableDone c f) := by
       · exact h1
   · exact hold c
 
+/-- `fail(e)` on a process with a pending kill excepts it -/
+theorem fail_committed (k : Nat) (c : Cfg) (e : Exc) (hpend : Pending k c) : Committed k (fail c e).1 := by
+  unfold fail
+  simp only [hpend.1, Bool.false_eq_true, if_false]
+  rcases transitionTo_label c (.excepted e) with h | h
+  · exact Or.inr (Or.inl (by simpa [SObj.label] using h))
+  · exact Or.inr (Or.inl h)
+
 /-- every event preserves the commitment (given the pause alias is well-kinded) -/
 theorem step_committed (P : Prog) (k : Nat) (c : Cfg) (ev : Ev) (h : Committed k c) (hp : PausingOk c) :
     Committed k (step P c ev).1 := by
@@ -356,6 +364,9 @@ theorem step_committed (P : Prog) (k : Nat) (c : Cfg) (ev : Ev) (h : Committed k
         split
         · exact Or.inr (Or.inr (h1.keep (awaitableDone_keep ..)))
         · exact Or.inr (Or.inr ((kill_pending k _ h1).keep ⟨rfl, rfl, rfl, rfl, rfl, rfl⟩))
+        · split
+          · exact fail_committed k _ _ h1
+          · exact Or.inr (Or.inr h1)
       · exact Or.inr (Or.inr hpend)
     · exact Or.inr (Or.inr (pause_pending k c hpend))
     · exact Or.inr (Or.inr (play_pending k c hpend hp))
@@ -375,5 +386,6 @@ theorem step_committed (P : Prog) (k : Nat) (c : Cfg) (ev : Ev) (h : Committed k
     · unfold complete; split
       · dsimp only; split <;> exact Or.inr (Or.inr (hpend.keep ⟨rfl, rfl, rfl, rfl, rfl, rfl⟩))
       · exact Or.inr (Or.inr hpend)
+    · exact Or.inr (Or.inr (hpend.keep ⟨rfl, rfl, rfl, rfl, rfl, rfl⟩))
 
 end PMF
